@@ -59,6 +59,36 @@ func g14ReservedProvenance(c *Ctx) {
 				srcs = append(srcs, rs.X)
 			}
 		}
+		// a local variable stands for what it was assigned (scope := pkgInfo.Pkg.Scope())
+		for i := 0; i < len(srcs) && i < 16; i++ {
+			ast.Inspect(srcs[i], func(m ast.Node) bool {
+				id, ok := m.(*ast.Ident)
+				if !ok {
+					return true
+				}
+				o := info.Uses[id]
+				if _, isVar := o.(*types.Var); !isVar || o.Parent() == nil {
+					return true
+				}
+				ast.Inspect(fi.Decl.Body, func(k ast.Node) bool {
+					if as, ok := k.(*ast.AssignStmt); ok && as.Tok == token.DEFINE && len(as.Lhs) == 1 && len(as.Rhs) == 1 {
+						if l, ok := as.Lhs[0].(*ast.Ident); ok && info.Defs[l] == o {
+							dup := false
+							for _, have := range srcs {
+								if have == ast.Node(as.Rhs[0]) {
+									dup = true
+								}
+							}
+							if !dup {
+								srcs = append(srcs, as.Rhs[0])
+							}
+						}
+					}
+					return true
+				})
+				return true
+			})
+		}
 		whole := ""
 		user := false
 		opaque := ""
@@ -610,4 +640,104 @@ func g14ReservedBeforeNaming(c *Ctx) {
 		}
 	}
 	rep.pass("G14")
+}
+
+// g32ReserveDeclared — a fresh helper name must avoid every name the user's package declares at package level, whether or not
+// the user *calls* it: a function that is only used as a value (`var cmp = deriveEqual_`), a variable, a type. The finder only
+// sees called identifiers; newPackage must therefore also reserve the names of the package scope (types.Scope.Names), except
+// those declared in the derived file — which, after a reload, holds this run's own functions. Checked: newPackage stores into
+// the reserved set, inside a loop over `….Scope().Names()` (or a variable assigned from it), under a guard that mentions
+// derivedFilename.
+func g32ReserveDeclared(c *Ctx) {
+	r, rep := c.Repo, c.Rep
+	fi := r.lookup("derive.newPackage")
+	ntm := r.lookup("derive.newTypesMap")
+	if fi == nil || ntm == nil {
+		rep.fail(Finding{Rule: "G32", Key: "G32|reserve-declared|missing", Kind: "undecided", Msg: "newPackage/newTypesMap not found"})
+		return
+	}
+	info := fi.Pkg.TypesInfo
+	var resVar types.Object
+	idx := -1
+	sig := ntm.Fn.Type().(*types.Signature)
+	for i := 0; i < sig.Params().Len(); i++ {
+		if sig.Params().At(i).Name() == "reserved" {
+			idx = i
+		}
+	}
+	ast.Inspect(fi.Decl.Body, func(n ast.Node) bool {
+		if c, ok := n.(*ast.CallExpr); ok && callee(info, c) == ntm.Fn && idx >= 0 && idx < len(c.Args) {
+			if id, ok := c.Args[idx].(*ast.Ident); ok {
+				resVar = info.Uses[id]
+			}
+		}
+		return true
+	})
+	if resVar == nil {
+		rep.fail(Finding{Rule: "G32", Key: "G32|reserve-declared|arg", Kind: "undecided", Where: []string{r.pos(fi.Decl.Pos())}, Msg: "cannot identify the reserved-name set passed to newTypesMap"})
+		return
+	}
+	isScopeNames := func(e ast.Expr) bool {
+		found := false
+		ast.Inspect(e, func(m ast.Node) bool {
+			if call, ok := m.(*ast.CallExpr); ok {
+				if fn, ok := callee(info, call).(*types.Func); ok && fn.Pkg() != nil && fn.Pkg().Path() == "go/types" && fn.Name() == "Names" {
+					found = true
+				}
+			}
+			return true
+		})
+		return found
+	}
+	ok := false
+	par := parents(fi.Decl)
+	ast.Inspect(fi.Decl.Body, func(n ast.Node) bool {
+		as, isAs := n.(*ast.AssignStmt)
+		if !isAs || len(as.Lhs) != 1 {
+			return true
+		}
+		ix, isIx := as.Lhs[0].(*ast.IndexExpr)
+		if !isIx {
+			return true
+		}
+		id, isID := ast.Unparen(ix.X).(*ast.Ident)
+		if !isID || info.Uses[id] != resVar {
+			return true
+		}
+		// enclosing range over Scope().Names(), and a guard mentioning derivedFilename on the way
+		inNames, guarded := false, false
+		for p := par[as]; p != nil; p = par[p] {
+			switch x := p.(type) {
+			case *ast.RangeStmt:
+				if isScopeNames(x.X) {
+					inNames = true
+				} else if xid, ok := ast.Unparen(x.X).(*ast.Ident); ok {
+					// a variable assigned from Scope().Names()
+					ast.Inspect(fi.Decl.Body, func(m ast.Node) bool {
+						if a2, ok := m.(*ast.AssignStmt); ok && len(a2.Lhs) == 1 && len(a2.Rhs) == 1 {
+							if l, ok := a2.Lhs[0].(*ast.Ident); ok && objOf(info, l) == info.Uses[xid] && isScopeNames(a2.Rhs[0]) {
+								inNames = true
+							}
+						}
+						return true
+					})
+				}
+			case *ast.IfStmt:
+				if nodeHas(x.Cond, func(k ast.Node) bool { kid, ok := k.(*ast.Ident); return ok && kid.Name == "derivedFilename" }) {
+					guarded = true
+				}
+			}
+		}
+		if inNames && guarded {
+			ok = true
+		}
+		return true
+	})
+	if ok {
+		rep.pass("G32")
+		rep.sample(map[string]string{"rule": "G32 every name the user's package declares is reserved", "function": "derive.newPackage"})
+		return
+	}
+	rep.fail(Finding{Rule: "G32", Key: "G32|reserve-declared|called-names-only", Where: []string{r.pos(fi.Decl.Pos())},
+		Msg: "newPackage reserves only the identifiers the user calls: a function the package declares but only uses as a value (var cmp = deriveEqual_), or any other package-level name, can be handed out as a fresh helper name — goderive exits 0 and the package has two declarations of that name"})
 }
